@@ -15,7 +15,7 @@ RULE = ("generated causally consistent well-formed file sets (device work starts
         "bijection, every edge forward in time with the weight its type prescribes, launch / kernel-kernel / sync edges joining what they stand for, acyclicity by a "
         "rank witness; non-trivial = the graph has edges of at least four types; distinct = hash of file set and parameters")
 ASSUMPTIONS = ["causally consistent traces (quantifier); kernels of one stream do not overlap (the generator's FIFO placement)",
-               "event-record / stream-wait-event synchronisation is not generated (that branch of the builder is not exercised here)",
+               "event-record / stream-wait-event synchronisation is generated (every fifth case), but under pandas 3 the builder attaches no edge to it (Series.fillna(inplace=True) on a column attribute is a no-op under copy-on-write, so the previous-launch look-up stays empty): the check confirms the analysis succeeds and every edge present is legal; no clause of the property demands the presence of an edge",
                "the topological order used as rank witness is networkx's; it is only a hint: the ranks are checked in Coq (Dag.rank_okb)"]
 TY = {"OPERATOR_KERNEL": 0, "DEPENDENCY": 1, "KERNEL_LAUNCH_DELAY": 2, "KERNEL_KERNEL_DELAY": 3, "SYNC_DEPENDENCY": 4}
 CHECKS = ["every analysed event contributes exactly one start and one end node carrying its times (node bijection)",
@@ -27,7 +27,12 @@ def gen_cases(seed, tier, n):
     out = []
     profs = ["cp", "cp_tiny", "cp"]
     for i in range(n):
-        c = tracegen.gen_sync_scenario(seed, i) if i % 5 == 4 else tracegen.gen_case(seed, i, tracegen.PROFILES[profs[i % len(profs)]])
+        if i % 5 == 4:
+            c = tracegen.gen_sync_scenario(seed, i)
+        elif i % 5 == 2:
+            c = tracegen.gen_event_sync_scenario(seed, i)
+        else:
+            c = tracegen.gen_case(seed, i, tracegen.PROFILES[profs[i % len(profs)]])
         rng = random.Random(seed * 7919 + i)
         c["params"] = {"pseed": rng.randint(0, 10 ** 9), "zw": rng.random() < 0.3}
         out.append(c)
